@@ -22,6 +22,11 @@
  *                       message id mid; the datagram reaches the server at once, the response reaches the client at once.
  *                       Token: t < 128 -> the 2 bytes (0xA0 + c, t), a value no other client uses; t >= 128 -> the 2 bytes
  *                       (0x9F, t), the SAME value whichever client sends it (tokens are only unique per client endpoint).
+ *                       t = 256 + 9*f + len (f = 0..3, len = 0..8; 256 <= t <= 291) -> the first <len> bytes of the 8-byte
+ *                       string of family f, whichever client sends it (tokens are 0..8 bytes long, RFC 7252 3: the empty
+ *                       token and a token that is a proper prefix of another one are DIFFERENT tokens; printed `-` = empty):
+ *                         f=0  51 62 73 84 95 a6 b7 c8      f=1  00 00 00 00 00 00 00 00
+ *                         f=2  a0 01 02 03 04 05 06 07 (len 2 = client 0's t=1)   f=3  9f 80 9f 80 9f 80 9f 80 (len 2 = t=128)
  *                       Optional x = further request options that are NOT part of the observation's identity (RFC 7641
  *                       3.3/3.6: ETag; RFC 7252 5.4.2: NoCacheKey options): 0 none (default), 1 ETag 1122, 2 ETag 33,
  *                       3 ETag 1122 + ETag 4455667788, 4 Size1 (option 60, NoCacheKey) empty, 5 ETag 33 + Size1 02
@@ -269,11 +274,21 @@ static void dump_state(void) {
   out("]");
 }
 
-static int send_request(int c, int r, int t, int q, int k, int mid, int observe, int blknum, int x) {
-  uint8_t tok[2]; char path[4]; uint8_t buf[4];
-  coap_pdu_t *p;
+#define MAXT 291
+/* token index -> token bytes (see the header comment); returns the length 0..8 */
+static size_t tok_bytes(int c, int t, uint8_t *tok) {
+  static const uint8_t fam[4][8] = { { 0x51, 0x62, 0x73, 0x84, 0x95, 0xa6, 0xb7, 0xc8 }, { 0, 0, 0, 0, 0, 0, 0, 0 },
+                                     { 0xa0, 0x01, 0x02, 0x03, 0x04, 0x05, 0x06, 0x07 }, { 0x9f, 0x80, 0x9f, 0x80, 0x9f, 0x80, 0x9f, 0x80 } };
+  if (t >= 256) { size_t n = (size_t)((t - 256) % 9); memcpy(tok, fam[((t - 256) / 9) & 3], n); return n; }
   tok[0] = (uint8_t)(t >= 128 ? 0x9F : 0xA0 + c); tok[1] = (uint8_t)t;
-  p = sim_make_pdu(csess[c], k == 'C' ? COAP_MESSAGE_CON : COAP_MESSAGE_NON, COAP_REQUEST_CODE_GET, mid, tok, 2, NULL, 0);
+  return 2;
+}
+
+static int send_request(int c, int r, int t, int q, int k, int mid, int observe, int blknum, int x) {
+  uint8_t tok[8]; char path[4]; uint8_t buf[4];
+  coap_pdu_t *p;
+  size_t tkl = tok_bytes(c, t, tok);
+  p = sim_make_pdu(csess[c], k == 'C' ? COAP_MESSAGE_CON : COAP_MESSAGE_NON, COAP_REQUEST_CODE_GET, mid, tok, tkl, NULL, 0);
   if (!p) return 0;
   /* options in increasing number order: ETag 4, Observe 6, Uri-Path 11, Uri-Query 15, Block2 23, Size1 60 */
   if (x == 1 || x == 3) coap_add_option(p, COAP_OPTION_ETAG, 2, (const uint8_t *)"\x11\x22");
@@ -303,7 +318,7 @@ static int send_request(int c, int r, int t, int q, int k, int mid, int observe,
   cli_verdict = COAP_RESPONSE_OK;
   for (int i = 0; i < n_to_client_now; i++) sim_deliver(to_client_now[i]);
   /* a CON request whose response never came (dropped by the server) must not leave a client timer behind */
-  coap_cancel_all_messages(cctx[c], csess[c], &(coap_bin_const_t){2, tok});
+  coap_cancel_all_messages(cctx[c], csess[c], &(coap_bin_const_t){tkl, tok});
   return 1;
 }
 
@@ -317,14 +332,14 @@ static int do_event(char *ev) {
   if (!strcmp(op, "reg") || !strcmp(op, "can") || !strcmp(op, "get")) {
     int c = geti(f, nf, 1), r = geti(f, nf, 2), t = geti(f, nf, 3), q = geti(f, nf, 4), mid = geti(f, nf, 6);
     int x = nf == 8 ? geti(f, nf, 7) : 0;
-    if ((nf != 7 && nf != 8) || c < 0 || c >= ncli || r < 0 || r >= nres || t < 0 || t > 255 || q < 0 || q > 4 || mid < 0 || mid > 65535 ||
+    if ((nf != 7 && nf != 8) || c < 0 || c >= ncli || r < 0 || r >= nres || t < 0 || t > MAXT || q < 0 || q > 4 || mid < 0 || mid > 65535 ||
         (f[5][0] != 'C' && f[5][0] != 'N') || (nf == 8 && !alldigits(f[7])) || x < 0 || x > 5) return 0;
     send_request(c, r, t, q, f[5][0], mid, op[0] == 'r' ? 0 : op[0] == 'c' ? 1 : -1, -1, x);
     return 1;
   }
   if (!strcmp(op, "blk")) {
     int c = geti(f, nf, 1), r = geti(f, nf, 2), t = geti(f, nf, 3), q = geti(f, nf, 4), mid = geti(f, nf, 6), num = geti(f, nf, 7);
-    if (nf != 8 || c < 0 || c >= ncli || r < 0 || r >= nres || !res_blk[r] || t < 0 || t > 255 || q < 0 || q > 2 || mid < 0 ||
+    if (nf != 8 || c < 0 || c >= ncli || r < 0 || r >= nres || !res_blk[r] || t < 0 || t > MAXT || q < 0 || q > 2 || mid < 0 ||
         mid > 65535 || (f[5][0] != 'C' && f[5][0] != 'N') || !alldigits(f[7]) || num < 0 || num > 255) return 0;
     send_request(c, r, t, q, f[5][0], mid, -1, num, 0);
     return 1;
